@@ -90,6 +90,10 @@ def gen_values(rng, n, mult, dist):
 
 
 def arr(vals, dtype="float"):
+    if dtype in ("list", "tuple"):
+        # the documented "array_like": plain Python sequences of floats
+        seq = [float(v) for v in vals]
+        return seq if dtype == "list" else tuple(seq)
     if dtype in ("uint8", "uint16") and all(v.denominator == 1 and 0 <= v < 256 for v in vals):
         return np.array([int(v) for v in vals], dtype=getattr(np, dtype))     # unsigned data: a sign flip must still give -v
     if dtype == "int" and all(v.denominator == 1 for v in vals):
@@ -98,7 +102,8 @@ def arr(vals, dtype="float"):
 
 
 def snapshot(*arrays):
-    return [(a.tobytes(), str(a.dtype), a.shape) if isinstance(a, np.ndarray) else None for a in arrays]
+    return [(a.tobytes(), str(a.dtype), a.shape) if isinstance(a, np.ndarray) else ((type(a).__name__, repr(a)) if isinstance(a, (list, tuple)) else None)
+            for a in arrays]
 
 
 def global_state():
@@ -143,7 +148,7 @@ def cases(tier, rng, dist, focus=None):
                   "pair_mul": ["pair", "mul", "2"], "pair_bad": ["pair", "bad", str(d)], "none": ["none"], "single": ["single"]}[kind]
         yield {"f": "two_sample", "x": [str(v) for v in vals[:nx]], "y": [str(v) for v in vals[nx:]], "stat": stat,
                "alt": rng.choice(ALTS), "reps": rng.randint(1, 5), "plus1": rng.random() < 0.5, "keep": rng.random() < 0.5,
-               "shift": sh, "num": rng.choice(["np", "py"]), "dtype": rng.choice(["float", "int"]), "mode": rng.choice(["random"] * 4 + ["zero", "max"]),
+               "shift": sh, "num": rng.choice(["np", "py"]), "dtype": rng.choice(["float", "int"] + (["list", "tuple"] if sh is None else [])), "mode": rng.choice(["random"] * 4 + ["zero", "max"]),
                "aseed": rng.randint(0, 10**9)}
     for _ in range(N // 2):
         n = rng.randint(1, 6)
@@ -151,7 +156,7 @@ def cases(tier, rng, dist, focus=None):
         paired = rng.random() < 0.4
         yield {"f": "one_sample", "x": [str(v) for v in vals[:n]], "y": [str(v) for v in vals[n:n + (n if rng.random() < 0.9 else n - 1)]] if paired else None,
                "stat": rng.choice(STAT1), "alt": rng.choice(ALTS), "reps": rng.randint(1, 5), "plus1": rng.random() < 0.5,
-               "keep": rng.random() < 0.5, "num": rng.choice(["np", "py"]), "dtype": rng.choice(["float", "int"]),
+               "keep": rng.random() < 0.5, "num": rng.choice(["np", "py"]), "dtype": rng.choice(["float", "int", "list"]),
                "mode": rng.choice(["random"] * 4 + ["zero", "max"]), "aseed": rng.randint(0, 10**9)}
     for _ in range(N // 6):
         n = rng.randint(1, 6)
@@ -167,7 +172,8 @@ def cases(tier, rng, dist, focus=None):
         if len(set(y)) == 1:
             y[0] += 1
         yield {"f": "corr", "x": [str(v) for v in x], "y": [str(v) for v in y], "alt": rng.choice(ALTS), "reps": rng.randint(1, 5),
-               "plus1": rng.random() < 0.5, "spearman": rng.random() < 0.3, "mode": rng.choice(["random"] * 4 + ["zero", "max"]), "aseed": rng.randint(0, 10**9)}
+               "plus1": rng.random() < 0.5, "spearman": rng.random() < 0.3, "mode": rng.choice(["random"] * 4 + ["zero", "max"]), "aseed": rng.randint(0, 10**9),
+               "container": rng.choice(["float", "float", "list"])}
     for _ in range(N // 2):
         n = rng.randint(2, 7)
         k = rng.randint(1, 3)
@@ -182,7 +188,8 @@ def cases(tier, rng, dist, focus=None):
         if stat == "one-way anova":
             vals = [Fraction(rng.randint(-3, 3) * mult) for _ in range(n)]   # squares stay exact in binary64
         yield {"f": "k_sample", "x": [str(v) for v in vals], "g": g, "stat": stat, "reps": rng.randint(1, 5), "plus1": rng.random() < 0.5,
-               "keep": rng.random() < 0.5, "num": rng.choice(["np", "py"]), "mode": rng.choice(["random"] * 4 + ["zero", "max"]), "aseed": rng.randint(0, 10**9)}
+               "keep": rng.random() < 0.5, "num": rng.choice(["np", "py"]), "mode": rng.choice(["random"] * 4 + ["zero", "max"]), "aseed": rng.randint(0, 10**9),
+               "container": rng.choice(["float", "float", "list"])}
     for _ in range(N // 3):
         n = rng.randint(1, 7)
         if rng.random() < 0.25:
@@ -385,7 +392,7 @@ def run_one(c):
 
 
 def run_corr(c):
-    x = arr([F(v) for v in c["x"]]); y = arr([F(v) for v in c["y"]])
+    x = arr([F(v) for v in c["x"]], c.get("container", "float")); y = arr([F(v) for v in c["y"]], c.get("container", "float"))
     t = Tape(None, chooser_of(c))
     fn = core.spearman_corr if c["spearman"] else core.corr
     r, unmod, gsame = call_test(fn, (x, y), dict(alternative=c["alt"], reps=c["reps"], seed=t, plus1=c["plus1"]), (x, y))
@@ -396,7 +403,9 @@ def run_corr(c):
 
 
 def run_k(c):
-    x = arr([F(v) for v in c["x"]]); g = np.array(c["g"])
+    x = arr([F(v) for v in c["x"]], c.get("container", "float")); g = np.array(c["g"])
+    if c.get("container") == "list":
+        g = list(c["g"])
     out = {}
     for tag, keep, answers in (("a", c["keep"], None), ("b", not c["keep"], "replay")):
         rec = []
